@@ -15,6 +15,8 @@
 #include <kernel/lafem/sparse_matrix_csr.hpp>
 #include <kernel/lafem/sparse_matrix_bcsr.hpp>
 #include <kernel/lafem/sparse_vector.hpp>
+#include <kernel/lafem/power_vector.hpp>
+#include <kernel/lafem/tuple_vector.hpp>
 #include <kernel/adjacency/graph.hpp>
 #include <control/checkpoint_control.hpp>
 
@@ -65,6 +67,22 @@ namespace
   Shared* SH = nullptr;
 
   // containers of one rank; kept alive while the checkpoint control refers to them
+  typedef PowerVector<DenseVector<double, Index>, 3> PowVec3;
+  typedef TupleVector<DenseVectorBlocked<double, Index, 2>, DenseVector<double, Index>> TupVec;
+
+  Snapshot snap(const PowVec3& v)
+  {
+    Snapshot s;
+    for(const auto* b : {&v.template at<0>(), &v.template at<1>(), &v.template at<2>()}) { Snapshot t = snap(*b); s.elems.insert(s.elems.end(), t.elems.begin(), t.elems.end()); s.scalars.insert(s.scalars.end(), t.scalars.begin(), t.scalars.end()); }
+    return s;
+  }
+  Snapshot snap(const TupVec& v)
+  {
+    Snapshot s = snap(v.template at<0>()); Snapshot t = snap(v.template at<1>());
+    s.elems.insert(s.elems.end(), t.elems.begin(), t.elems.end()); s.scalars.insert(s.scalars.end(), t.scalars.begin(), t.scalars.end());
+    return s;
+  }
+
   struct Objects
   {
     std::vector<std::unique_ptr<DenseVector<double, Index>>> dv;
@@ -72,6 +90,8 @@ namespace
     std::vector<std::unique_ptr<DenseVectorBlocked<double, Index, 2>>> dvb;
     std::vector<std::unique_ptr<SparseMatrixCSR<double, Index>>> csr;
     std::vector<std::unique_ptr<SparseMatrixBCSR<double, Index, 2, 2>>> bcsr;
+    std::vector<std::unique_ptr<PowVec3>> pow;
+    std::vector<std::unique_ptr<TupVec>> tup;
   };
 
   Adjacency::Graph make_graph(Gen& g, Index rows, Index cols)
@@ -95,6 +115,10 @@ namespace
     case 1: { O.dvf.emplace_back(new DenseVector<float, unsigned int>(n)); auto& v = *O.dvf.back(); for(Index i = 0; i < n; ++i) v(i, float(val(rank % 8, o % 8, i % 64))); rec.ref = snap(v); if(reg) cp.add_object(String(rec.id), v); } break;
     case 2: { O.dvb.emplace_back(new DenseVectorBlocked<double, Index, 2>(n)); auto& v = *O.dvb.back(); auto* p = v.template elements<Perspective::pod>(); for(Index i = 0; i < 2 * n; ++i) p[i] = val(rank, o, i); rec.ref = snap(v); if(reg) cp.add_object(String(rec.id), v); } break;
     case 3: { O.csr.emplace_back(new SparseMatrixCSR<double, Index>(make_graph(g, 1 + g.idx(12), 1 + g.idx(12)))); auto& m = *O.csr.back(); if(m.used_elements() > 0) for(Index i = 0; i < m.used_elements(); ++i) m.val()[i] = val(rank, o, i); rec.ref = snap(m); if(reg) cp.add_object(String(rec.id), m); } break;
+    case 5: { O.pow.emplace_back(new PowVec3(std::max<Index>(n, 1))); auto& v = *O.pow.back(); for(Index i = 0; i < v.template at<0>().size(); ++i) { v.template at<0>()(i, val(rank, o, i)); v.template at<1>()(i, val(rank, o, i + 1000)); v.template at<2>()(i, val(rank, o, i + 2000)); } rec.ref = snap(v); if(reg) cp.add_object(String(rec.id), v); } break;
+    case 6: { DenseVectorBlocked<double, Index, 2> a(std::max<Index>(n, 1)); auto* p = a.template elements<Perspective::pod>(); for(Index i = 0; i < 2 * a.size(); ++i) p[i] = val(rank, o, i);
+              DenseVector<double, Index> b(1 + g.idx(20)); for(Index i = 0; i < b.size(); ++i) b(i, val(rank, o, i + 5000));
+              O.tup.emplace_back(new TupVec(std::move(a), std::move(b))); auto& v = *O.tup.back(); rec.ref = snap(v); if(reg) cp.add_object(String(rec.id), v); } break;
     case 4: { O.bcsr.emplace_back(new SparseMatrixBCSR<double, Index, 2, 2>(make_graph(g, 1 + g.idx(8), 1 + g.idx(8)))); auto& m = *O.bcsr.back(); if(m.used_elements() > 0) { auto* p = m.template val<Perspective::pod>(); for(Index i = 0; i < m.template used_elements<Perspective::pod>(); ++i) p[i] = val(rank, o, i); } rec.ref = snap(m); if(reg) cp.add_object(String(rec.id), m); } break;
     }
   }
@@ -119,6 +143,8 @@ namespace
     case 2: { DenseVectorBlocked<double, Index, 2> t(pre); restore_and_check(cp, rec, t, rank, how); } break;
     case 3: { SparseMatrixCSR<double, Index> t; restore_and_check(cp, rec, t, rank, how); } break;
     case 4: { SparseMatrixBCSR<double, Index, 2, 2> t; restore_and_check(cp, rec, t, rank, how); } break;
+    case 5: { PowVec3 t; restore_and_check(cp, rec, t, rank, how); } break;
+    case 6: { TupVec t; restore_and_check(cp, rec, t, rank, how); } break;
     }
   }
 
@@ -146,7 +172,7 @@ namespace
     const int k = int(g.idx(Index(max_objs) + 1));
     for(int o = 0; o < k; ++o)
     {
-      ObjRec rec; rec.kind = int(g.idx(5));
+      ObjRec rec; rec.kind = int(g.idx(7));
       do { rec.id = make_id(g, o, plan.objs); } while(std::any_of(plan.objs.begin(), plan.objs.end(), [&](const ObjRec& r) { return r.id == rec.id; }));
       make_object(O, cp, rank, o, rec, g, true);
       plan.objs.push_back(rec);
@@ -179,7 +205,7 @@ namespace
       const int extra = int(g.idx(3));
       for(int e = 0; e < extra; ++e, ++o2)
       {
-        ObjRec rec; rec.kind = int(g.idx(5));
+        ObjRec rec; rec.kind = int(g.idx(7));
         do { rec.id = make_id(g, o2 % 20, plan.objs2); } while(std::any_of(plan.objs.begin(), plan.objs.end(), [&](const ObjRec& r) { return r.id == rec.id; }) || std::any_of(plan.objs2.begin(), plan.objs2.end(), [&](const ObjRec& r) { return r.id == rec.id; }));
         make_object(O, cp, rank, o2, rec, g, true);
         plan.objs2.push_back(rec);
